@@ -59,8 +59,11 @@ fn check_excl(rel: &str, excludes: &[String]) -> Option<String> {
 
 pub fn is_excluded(seed: u64, budget: u64) -> i32 {
     let t0 = Instant::now();
-    let rels = strings(&['a', '.', '/', '*', 'b'], 5);
-    let pats = strings(&['a', '*', '?', '/', '.'], 3);
+    let mut rels = strings(&['a', '.', '/', '*', 'b'], 5);
+    let mut pats = strings(&['a', '*', '?', '/', '.'], 3);
+    // `?` is one CHARACTER, whatever its length in bytes
+    rels.extend(strings(&['a', '\u{e9}', '\u{6587}', '/'], 3));
+    pats.extend(strings(&['?', '\u{e9}', 'a'], 3));
     let mut cases = 0u64;
     let mut rng = Rng(seed ^ 0xE8C1);
     // all single-pattern lists against all rels (exhaustive in the thorough budget), then random pairs
